@@ -90,7 +90,15 @@ func FormatNumber(num int64) string {
 
 // FormatFloat64 turns a float64 constant into a string.
 func FormatFloat64(floatNum float64) string {
-	return strconv.FormatFloat(floatNum, 'f', -1, 64)
+	s := strconv.FormatFloat(floatNum, 'f', -1, 64)
+	if math.IsInf(floatNum, 0) || math.IsNaN(floatNum) {
+		return s
+	}
+	// An integral value needs a fractional part, otherwise it reads back as a number.
+	if !strings.Contains(s, ".") {
+		s += ".0"
+	}
+	return s
 }
 
 // FormatTime formats a time instant (nanoseconds since Unix epoch) as an ISO 8601 string.
